@@ -24,3 +24,11 @@ Definition is_add (s:list icon) (c:icon) : list icon := s ++ [c].
 Definition iterm_is_sym (t:iterm) : bool := match t with ISym _ => true | _ => false end.
 (* the value of an Optional that was tested to be present *)
 Definition py_unsome {A R L} (a:option A) : ctl R L A := match a with Some x => Next x | None => Raise end.
+(* try: v = d[k] ... except KeyError: <handler> *)
+Definition try_key {V R L S} (o:option V) (h:ctl R L S) (k:V -> ctl R L S) : ctl R L S := match o with Some v => k v | None => h end.
+(* pysmt node inspection on Boolean formulas: atoms are named by their index *)
+Definition f_is_symbol (f:form) : bool := match f with FVar _ => true | _ => false end.
+Definition f_is_not (f:form) : bool := match f with FNot _ => true | _ => false end.
+Definition f_symbol_name {R L} (f:form) : ctl R L Z := match f with FVar i => Next (Z.of_nat i) | _ => Raise end.
+Definition f_arg0 {R L} (f:form) : ctl R L form :=
+  match f with FNot g => Next g | FAnd g _ => Next g | FOr g _ => Next g | _ => Raise end.
